@@ -2,7 +2,7 @@
     after Gen): the executable model of the *current* /repo. *)
 From Coq Require Import List ZArith Bool.
 From Coq Require Import Strings.Byte.
-From Rjson Require Import Base Helpers Machine Api.
+From Rjson Require Import Base Helpers Machine Api Compat.
 From RjsonGen Require Import GenTables.
 Import ListNotations.
 Local Open Scope Z_scope.
